@@ -99,12 +99,17 @@ func (l *l1) qry(q *relationtuple.RelationQuery) string {
 	return s
 }
 
-func (l *l1) enter(ctx context.Context, op, key string) error {
+func (l *l1) enter(ctx context.Context, op, key string) (context.Context, error) {
 	l.calls.Add(1)
 	if s := l.cur.Load(); s != nil {
-		return s.Enter(ctx, op, op+" "+key)
+		err, late := s.Enter(ctx, op, op+" "+key)
+		if late {
+			// the storage round trip completed although the context was cancelled meanwhile
+			return context.WithoutCancel(ctx), nil
+		}
+		return ctx, err
 	}
-	return nil
+	return ctx, nil
 }
 
 type l1Manager struct {
@@ -118,7 +123,8 @@ func (m *l1Manager) GetRelationTuples(ctx context.Context, query *relationtuple.
 	if po.Token != "" {
 		tok = " tok"
 	}
-	if err := m.l.enter(ctx, "list", m.l.qry(query)+tok); err != nil {
+	ctx, err := m.l.enter(ctx, "list", m.l.qry(query)+tok)
+	if err != nil {
 		return nil, "", err
 	}
 	if ps := int(m.l.pageSize.Load()); ps > 0 && po.Size == 0 {
@@ -128,35 +134,40 @@ func (m *l1Manager) GetRelationTuples(ctx context.Context, query *relationtuple.
 }
 
 func (m *l1Manager) ExistsRelationTuples(ctx context.Context, query *relationtuple.RelationQuery) (bool, error) {
-	if err := m.l.enter(ctx, "exists", m.l.qry(query)); err != nil {
+	ctx, err := m.l.enter(ctx, "exists", m.l.qry(query))
+	if err != nil {
 		return false, err
 	}
 	return m.inner.ExistsRelationTuples(ctx, query)
 }
 
 func (m *l1Manager) WriteRelationTuples(ctx context.Context, rs ...*relationtuple.RelationTuple) error {
-	if err := m.l.enter(ctx, "write", fmt.Sprint(len(rs))); err != nil {
+	ctx, err := m.l.enter(ctx, "write", fmt.Sprint(len(rs)))
+	if err != nil {
 		return err
 	}
 	return m.inner.WriteRelationTuples(ctx, rs...)
 }
 
 func (m *l1Manager) DeleteRelationTuples(ctx context.Context, rs ...*relationtuple.RelationTuple) error {
-	if err := m.l.enter(ctx, "delete", fmt.Sprint(len(rs))); err != nil {
+	ctx, err := m.l.enter(ctx, "delete", fmt.Sprint(len(rs)))
+	if err != nil {
 		return err
 	}
 	return m.inner.DeleteRelationTuples(ctx, rs...)
 }
 
 func (m *l1Manager) DeleteAllRelationTuples(ctx context.Context, query *relationtuple.RelationQuery) error {
-	if err := m.l.enter(ctx, "deleteall", m.l.qry(query)); err != nil {
+	ctx, err := m.l.enter(ctx, "deleteall", m.l.qry(query))
+	if err != nil {
 		return err
 	}
 	return m.inner.DeleteAllRelationTuples(ctx, query)
 }
 
 func (m *l1Manager) TransactRelationTuples(ctx context.Context, ins []*relationtuple.RelationTuple, del []*relationtuple.RelationTuple) error {
-	if err := m.l.enter(ctx, "transact", fmt.Sprintf("%d/%d", len(ins), len(del))); err != nil {
+	ctx, err := m.l.enter(ctx, "transact", fmt.Sprintf("%d/%d", len(ins), len(del)))
+	if err != nil {
 		return err
 	}
 	return m.inner.TransactRelationTuples(ctx, ins, del)
@@ -168,14 +179,16 @@ type l1Traverser struct {
 }
 
 func (t *l1Traverser) TraverseSubjectSetExpansion(ctx context.Context, tuple *relationtuple.RelationTuple) ([]*relationtuple.TraversalResult, error) {
-	if err := t.l.enter(ctx, "expand", t.l.tup(tuple)); err != nil {
+	ctx, err := t.l.enter(ctx, "expand", t.l.tup(tuple))
+	if err != nil {
 		return nil, err
 	}
 	return t.inner.TraverseSubjectSetExpansion(ctx, tuple)
 }
 
 func (t *l1Traverser) TraverseSubjectSetRewrite(ctx context.Context, tuple *relationtuple.RelationTuple, css []string) ([]*relationtuple.TraversalResult, error) {
-	if err := t.l.enter(ctx, "rewrite", fmt.Sprintf("%s %v", t.l.tup(tuple), css)); err != nil {
+	ctx, err := t.l.enter(ctx, "rewrite", fmt.Sprintf("%s %v", t.l.tup(tuple), css))
+	if err != nil {
 		return nil, err
 	}
 	return t.inner.TraverseSubjectSetRewrite(ctx, tuple, css)
